@@ -285,7 +285,11 @@ def build_unit(ctx, gc_text):
     for rel in (CORE_MEM, INT_MEM, INT_BUF, SER_BUF, SER_MEM):
         for h in extract_local_helpers(ctx, rel):
             fns.append(h)
-            helpers.append(h.text)
+            ht, nn = re.subn(r'^([ \t]*)namespace[ \t]*\{', r'\1namespace verif_anon {', h.text, count=1, flags=re.M)
+            if nn:
+                h.rules.append(('anonymous namespace -> named namespace + using-directive (front end: "unique namespace not supported")', nn))
+                ht += '\n  using namespace verif_anon;\n'
+            helpers.append(ht)
     real = '\n\n'.join(helpers + parts)
     real, n = re.subn(r'\bnullptr\b', '0', real)
     real, n = re.subn(r'\bdelete\s+([A-Za-z_]\w*)\s*;', r'verif_delete(\1);', real)
